@@ -91,15 +91,28 @@ class RegionWatch:
         self.data = data
         self.last = {}
         self.compares = 0
+        self.done = set()
+        self.probes = {}
 
     def check(self, insp, tag):
         bad = []
+        newly = 0
         for name, r in regions_of(insp).items():
             d = r.data
             key = (name, id(r))
             prev = self.last.get(key)
+            if key not in self.done:
+                try:
+                    if r.complete:
+                        self.done.add(key)
+                        newly += 1
+                except Exception:
+                    pass
             if prev is not None and prev[0] is d and prev[1] == r.offset:
                 continue
+            if prev is not None and prev[1] != r.offset and prev[1] > 0 and \
+                    len(d) == len(prev[0]):
+                self.probes['end_region_slid'] = 1
             self.last[key] = (d, r.offset)
             self.compares += 1
             off = r.offset
@@ -111,6 +124,8 @@ class RegionWatch:
                             'first_diff': _first_diff(
                                 self.data[off:off + len(d)] if off >= 0
                                 else b'', d)})
+        if newly >= 2:
+            self.probes['several_regions_completed_in_one_chunk'] = 1
         return bad
 
 
@@ -177,7 +192,7 @@ def drive_bare(name, data, sizes, qplan=None, watch_regions=True,
         log.add('bare', name, err, _vt(v))
     return {'verdict': v, 'error': err, 'region_bad': bad,
             'max_retained': maxret, 'mem_bad': mem_bad, 'insp': insp,
-            'qres': qres}
+            'qres': qres, 'probes': dict(rw.probes) if rw else {}}
 
 
 def _vt(v):
